@@ -33,6 +33,7 @@ type c05In struct {
 	Failing []bool    `json:"failing,omitempty"` // retry: backend fails every forward
 	Chunked bool      `json:"chunked,omitempty"`
 	BodyLen int       `json:"bodylen,omitempty"`
+	RT      *c05RT    `json:"rt,omitempty"` // kind retryt: timed retry loop (c05_retry.go)
 }
 
 func fnv32a(s string) uint32 {
@@ -94,6 +95,8 @@ func c05Run(in0 interface{}) Result {
 		return !(h.U || h.F >= mf) && !(h.M > 0 && h.C >= h.M)
 	}
 	switch in.Kind {
+	case "retryt":
+		return c05RunTimed(in)
 	case "policy":
 		pol, pterm, req := c05Pol(in)
 		var pool proxy.HostPool
@@ -362,6 +365,7 @@ func c05Gen(r *Rand, tier string) []interface{} {
 		}
 		out = append(out, in)
 	}
+	out = append(out, c05GenTimed(r, tier)...)
 	return out
 }
 
